@@ -32,7 +32,7 @@ def decoCtx (target : Nat) : List Expr → Option Ctx
   | d :: ds =>
     if d.range.line ≤ target && target ≤ d.range.endLine then
       if isUsefixtures d then some .usefixtures
-      else if isParametrize d then some .parametrize
+      else if isIndirectParametrize d then some .parametrize
       else decoCtx target ds
     else decoCtx target ds
 
